@@ -31,6 +31,9 @@ type syncParams struct {
 	Cap     int        `json:"cap,omitempty"`
 	Clients [][]chanOp `json:"clients,omitempty"`
 	CloseAt int        `json:"close_at,omitempty"` // main yields this many times, then closes and cancels
+	// NoClose: every client operation takes the context and the peer only cancels it; nothing
+	// ever closes the channel, so the cancel is all that can release a blocked client
+	NoClose bool `json:"no_close,omitempty"`
 	// api-mutex / rwmutex / wg
 	Threads int   `json:"threads,omitempty"`
 	Iters   int   `json:"iters,omitempty"`
@@ -57,6 +60,7 @@ func (*c25Engine) Generate(seed uint64, tier string) *Case {
 	case k < 6:
 		p.Family = "api-chan"
 		p.Cap = r.Intn(4)
+		p.NoClose = r.Chance(0.3)
 		nc := r.Range(2, 5)
 		next := 1
 		for c := 0; c < nc; c++ {
@@ -79,6 +83,18 @@ func (*c25Engine) Generate(seed uint64, tier string) *Case {
 			p.Clients = append(p.Clients, ops)
 		}
 		p.CloseAt = r.Range(0, 40)
+		if p.NoClose {
+			for _, ops := range p.Clients {
+				for i := range ops {
+					switch ops[i].Kind {
+					case "push":
+						ops[i].Kind = "pushctx"
+					case "pop", "next", "close":
+						ops[i].Kind = "popctx"
+					}
+				}
+			}
+		}
 	case k < 8:
 		p.Family = "api-mutex"
 		p.Threads = r.Range(2, 4)
@@ -338,15 +354,17 @@ func (e *c25Engine) runAPI(t *testing.T, c *Case, p *syncParams) *Verdict {
 				env.Yield()
 			}
 			// peer close at an arbitrary instant, then cancellation: releases every blocked client
-			seq++
-			call := seq
-			r := classifyChanErr(ch.Close())
-			seq++
-			mu.Lock()
-			ops = append(ops, porcupine.Operation{ClientId: 99, Input: chIn{"close", 0}, Call: call, Output: chOut{Res: r}, Return: seq})
-			mu.Unlock()
-			for i := 0; i < 5; i++ {
-				env.Yield()
+			if !p.NoClose {
+				seq++
+				call := seq
+				r := classifyChanErr(ch.Close())
+				seq++
+				mu.Lock()
+				ops = append(ops, porcupine.Operation{ClientId: 99, Input: chIn{"close", 0}, Call: call, Output: chOut{Res: r}, Return: seq})
+				mu.Unlock()
+				for i := 0; i < 5; i++ {
+					env.Yield()
+				}
 			}
 			cancel()
 			env.Wait(&wg)
@@ -505,7 +523,7 @@ func (e *c25Engine) runAPI(t *testing.T, c *Case, p *syncParams) *Verdict {
 	v := &Verdict{Verdict: "ok", Property: "C25", Exec: 1, Res: &res}
 	v.Hash = hashStrings(string(c.Params), hashDecisions(res.Decisions))
 	v.Nontrivial = res.Switches >= 2
-	v.Extra = map[string]int64{"family_" + p.Family: 1, "ops": int64(len(ops))}
+	v.Extra = map[string]int64{"family_" + p.Family: 1, "ops": int64(len(ops)), "chan_cancel_only": b2i(p.NoClose)}
 	switch res.Outcome {
 	case "ok":
 	case "gopanic":
